@@ -86,6 +86,28 @@ func (r *REPL) SetUI(term UI) {
 	}
 }
 
+// errorMessage returns the message of the exception in err - not
+// err.Error(), which quotes the offending source line as well
+func errorMessage(err error) string {
+	var exc *py.Exception
+	switch e := err.(type) {
+	case *py.Exception:
+		exc = e
+	case py.ExceptionInfo:
+		exc, _ = e.Value.(*py.Exception)
+	case *py.ExceptionInfo:
+		exc, _ = e.Value.(*py.Exception)
+	}
+	if exc != nil {
+		if args, ok := exc.Args.(py.Tuple); ok && len(args) > 0 {
+			if msg, ok := args[0].(py.String); ok {
+				return string(msg)
+			}
+		}
+	}
+	return err.Error()
+}
+
 // Run runs a single line of the REPL
 func (r *REPL) Run(line string) error {
 	if r.continuation {
@@ -104,7 +126,7 @@ func (r *REPL) Run(line string) error {
 	if err != nil {
 		// Detect that we should start a continuation line
 		// FIXME detect EOF properly!
-		errText := err.Error()
+		errText := errorMessage(err)
 		if strings.Contains(errText, "unexpected EOF while parsing") || strings.Contains(errText, "EOF while scanning triple-quoted string literal") {
 			stripped := strings.TrimSpace(toCompile)
 			isComment := len(stripped) > 0 && stripped[0] == '#'
